@@ -3,7 +3,7 @@ import refs_cases
 
 ID = "C05"
 PROPERTIES_FILE = "Properties/C05.v"
-COQ_TARGETS = ["Properties/C05.vo", "Refs/Cases.vo", "Refs/RefProofs.vo", "Refs/RefStep.vo", "Refs/LifeProofs.vo", "Refs/LifeStep.vo", "Refs/ErrPaths.vo", "Refs/Disconnect.vo", "Refs/FenceProofs.vo"]
+COQ_TARGETS = ["Properties/C05.vo", "Refs/Cases.vo", "Refs/RefProofs.vo", "Refs/RefStep.vo", "Refs/LifeProofs.vo", "Refs/LifeStep.vo", "Refs/ErrPaths.vo", "Refs/Disconnect.vo", "Refs/Ordered.vo", "Refs/FenceProofs.vo"]
 LEVEL = "proof"
 TECHNIQUE = ("Coq theorems (all backends, all states) over a hand-written sequential Gallina model of fidRef reference counting, the DecRef "
              "cascade, the fid tables and connState.stop; model tied to the code by a differential against the real Server.Handle driven "
@@ -15,14 +15,14 @@ LEVEL_TEXT = ("Proved in Coq by induction over ALL request histories from the in
               "for Twalk/Twalkgetattr and for Tattach (every failing component, every reason: each File handed out during the failing request is "
               "closed exactly once when it is answered), C05_stop_empties_table, and C05_disconnect: after the stop of every connection holding a "
               "fid no fid is bound and every File ever returned is closed exactly once - under the hypothesis [ranked] (parent links of live fidRefs "
-              "well founded; NOT discharged, it is false for backends violating B2). Every run re-checks the proofs, replays generated histories on "
+              "well founded; false for backends violating B2; PROVED for every history without Trename/Trenameat - C05_disconnect_rename_free has no hypothesis - NOT discharged for histories with renames). Every run re-checks the proofs, replays generated histories on "
               "the real server (failure injected at every backend-call index of the corpus, connection cut after every byte of short sessions, fid "
               "replacement, xattr fids, create-rebinding) plus gated concurrent scenarios (rename while a child's last DecRef is parked in Close; "
               "rename whose Renamed callback overlaps a disconnect; see C08 for unlink vs walk), evaluates the lifecycle predicate on the observed "
               "backend call log, Handle's return and the goroutine count, and compares replies, call logs and the path tree with the model.")
 LEVEL_NOTE = ("Sequential model: requests are handled one at a time (in-flight interleavings are the subject of C06/C07/C16; specific interleavings "
               "are exercised by gated scenarios and judged on the observed log only). Partial in Coq: C05_disconnect keeps the hypothesis [ranked] "
-              "(implied by parent id < child id, true without renames; in general it needs B2, tree_inv (proved), tree_closed and 'detached nodes "
+              "(implied by parent id < child id, proved for rename-free histories; with renames it needs B2, tree_inv (proved), tree_closed and 'detached nodes "
               "stay detached' (not proved) - see coq/Refs/HANDOVER.md); the Go branch !valid.Mode of Tattach is covered as the GetAttr-error exit "
               "only. Handle returning / no goroutine left are observed on the real code only. The model is tied to the Go code by the differential only.")
 DESIGN_REF = "6/C05"
